@@ -251,6 +251,7 @@ def run_check(prop: str, tier: str, batch_seed: int, runs_override=None) -> int:
     # ---- violations: known-finding filter, minimise, fresh-process confirmation
     known = [k for k in load_known() if k.get('property') == prop and k.get('status') == 'known']
     reported = []
+    unreproduced = []
     seen_cls = set()
     agg['violations'].sort(key=lambda v: v['i'])
     for rec in agg['violations']:
@@ -280,8 +281,14 @@ def run_check(prop: str, tier: str, batch_seed: int, runs_override=None) -> int:
             path = write_replay(prop, rec['seed'], small, v['cls'], v2['detail'])
             if confirm_in_fresh_process(path):
                 reported.append((v['cls'], path, v2['detail']))
-            else:
-                harness_error = 'violation %s did not reproduce in a fresh process (%s)' % (v['cls'], path)
+                continue
+            # the minimised script may have lost something the failure needs: try the script as generated
+            path = write_replay(prop, rec['seed'], rec['script'], v['cls'], v['detail'])
+            if confirm_in_fresh_process(path):
+                reported.append((v['cls'], path, v['detail']))
+                continue
+            seen_cls.discard(v['cls'])          # let another run of the same class have a try
+            unreproduced.append('violation %s of run seed=%d did not reproduce in a fresh process (%s)' % (v['cls'], rec['seed'], path))
 
     for k in known:
         if known_hit.get(k['predicate']):
@@ -326,6 +333,8 @@ def run_check(prop: str, tier: str, batch_seed: int, runs_override=None) -> int:
         print('VIOLATION property=%s replay=%s' % (prop, path))
     if reported:
         return 1
+    if unreproduced and not harness_error:
+        harness_error = '; '.join(unreproduced[:3])
     if harness_error:
         print('HARNESS-ERROR: %s' % harness_error)
         return 2
